@@ -14,6 +14,7 @@ int verif_param(int i);            // enumerated (non-symbolic) parameter i of t
 void verif_assume(bool c);
 void verif_assert(bool c, const char* msg);
 bool verif_feq(double a, double b);  // solver: same term (bit-equal, -0==+0); native: |a-b| <= 1e-9
+bool verif_native();               // false under the solver, true in native replays
 void verif_reach();                // reachability witness (fails under -DWITNESS)
 void verif_note(int tag, std::uint64_t v);  // records an observable for replays/validation
 }
